@@ -1,0 +1,8 @@
+//go:build !verif
+// +build !verif
+
+package raft
+
+// verifLoopC is a nil channel without the verif tag: the extra select case in
+// run() is never ready.
+func (this *RaftGroup) verifLoopC() chan func(uint64) { return nil }
